@@ -69,11 +69,39 @@ Iface(i) ==
     IN [name |-> Pick(<<"org.example.cg", "io.s9.api-v2", "com.ex-ample.Sub.iface">>, i), comments |-> <<>>,
         members |-> <<t1, t2>> \o (IF i % 2 = 0 THEN <<t3>> ELSE <<>>) \o [x \in 1..nm |-> meth(x)] \o twins \o [x \in 1..ne |-> err(x)]]
 
+\* Every keyword of Rust (strict, reserved, reserved since 2018 / 2024, weak) in every position a generated
+\* identifier can come from: a method name, a parameter, an output field, a field of a custom type, a field of an
+\* error.  All of them are legal Varlink names.
+Keywords == <<"as", "async", "await", "break", "const", "continue", "crate", "dyn", "else", "enum", "extern", "false", "fn",
+              "for", "if", "impl", "in", "let", "loop", "match", "mod", "move", "mut", "pub", "ref", "return", "self",
+              "static", "struct", "super", "trait", "true", "type", "unsafe", "use", "where", "while", "abstract", "become",
+              "box", "do", "final", "macro", "override", "priv", "try", "typeof", "unsized", "virtual", "yield", "union",
+              "gen", "raw", "safe", "Self">>   \* (`Self' apart from `self': their snake_case forms coincide)
+UpperIx(ch, i) == IF i > 26 THEN 0 ELSE IF SubSeq("abcdefghijklmnopqrstuvwxyz", i, i) = ch THEN i ELSE 0
+RECURSIVE FindLower(_, _)
+FindLower(ch, i) == IF i > 26 THEN 0 ELSE IF SubSeq("abcdefghijklmnopqrstuvwxyz", i, i) = ch THEN i ELSE FindLower(ch, i + 1)
+Cap(w) == LET i == FindLower(SubSeq(w, 1, 1), 1) IN
+          IF i = 0 THEN w ELSE SubSeq("ABCDEFGHIJKLMNOPQRSTUVWXYZ", i, i) \o SubSeq(w, 2, Len(w))
+KwIface(part) ==
+    LET ks == SelectSeq(Keywords, LAMBDA w : TRUE)
+        lo == (part - 1) * 19 + 1
+        hi == IF part * 19 > Len(ks) THEN Len(ks) ELSE part * 19
+        mine == SubSeq(ks, lo, hi)
+        kwfields == [x \in 1..Len(mine) |-> F(mine[x], Pick(<<Prim("int"), Prim("string"), Prim("bool")>>, x))]
+        meths == [x \in 1..Len(mine) |->
+                    M("method", Cap(mine[x]) \o (IF Cap(mine[x]) = mine[x] THEN "X" ELSE ""),
+                      <<F(mine[x], Prim("int"))>>, <<F(mine[x], Prim("string"))>>, <<>>, FALSE)]
+    IN [name |-> "org.example.kw" \o ToString(part), comments |-> <<>>,
+        members |-> <<M("type", "Words", kwfields, <<>>, <<>>, FALSE)>> \o meths
+                    \o <<M("error", "Reserved", kwfields, <<>>, <<>>, FALSE)>>]
+KwIfaces == {KwIface(p) : p \in 1..3}
+
 VARIABLES v, b
 NB == 16
 Init == v = Iface(0) /\ b = 0
 Next == \/ b = 0 /\ b' \in 1..NB /\ v' = v
-        \/ b \in 1..NB /\ v' \in {Iface(i) : i \in {x \in 1..NIfaces : x % NB = b - 1}} /\ b' = NB + 1
+        \/ b \in 1..NB /\ v' \in {Iface(i) : i \in {x \in 1..NIfaces : x % NB = b - 1}} \cup (IF b = 1 THEN KwIfaces ELSE {})
+           /\ b' = NB + 1
 Spec == Init /\ [][Next]_<<v, b>>
 
 Glue == {"?", "[]", "[string]"}
